@@ -2,8 +2,9 @@
 import json, os, re, shutil
 import vlib
 
-CLOSURE = ["Model/Announcer.v", "Proofs/AnnouncerP.v", "Proofs/AnnouncerNdpP.v", "Proofs/AnnouncerTop.v"]
-COQ_FILES = ["Properties/C13.v", "Corr/Run_Announcer.v"]
+CLOSURE = ["Model/Announcer.v", "Proofs/AnnouncerP.v", "Proofs/AnnouncerNdpP.v", "Proofs/AnnouncerTop.v",
+           "Model/AnnouncerExt.v", "Proofs/AnnouncerExtP.v"]
+COQ_FILES = ["Properties/C13.v", "Corr/Run_Announcer.v", "Model/AnnouncerSkel.v"]
 PKG = "internal/layer2"
 FILES = ["zz_verif.go", "zz_verif_ann_test.go"]
 
@@ -22,7 +23,7 @@ def sections(ctx, ok):
     shutil.copy(os.path.join(tooldir, "AnnSections.v"), os.path.join(ctx.work, "AnnSections.v"))
     if not ok:
         return
-    ctx.obligations += 1
+    ctx.obligations += 2
     coqc = ["timeout", "300", "coqc", "-Q", vlib.COQ, "Verif", "-Q", ctx.work, "C13gen"]
     rc, out, _ = vlib.sh(coqc + ["LockFacts.v"], cwd=ctx.work)
     if rc != 0:
@@ -31,13 +32,20 @@ def sections(ctx, ok):
     ctx.checker_cmds.append("tools/lockfacts $REPO .work/C13/LockFacts.v && coqc .work/C13/AnnSections.v  (announcer methods are single critical sections)")
     if rc != 0:
         m = re.search(r'D_bad =\s*(.*?)\n\s+: ', out, re.S)
-        ctx.proof_broken = ("announcer_methods_are_critical_sections fails on the lock facts generated from %s/internal/layer2/announcer.go: "
-                            "not a single critical section of Announce.RWMutex: %s" % (ctx.repo, " ".join((m.group(1) if m else out[-600:]).split())))
-    elif "Closed under the global context" not in out:
+        bad = " ".join(m.group(1).split()) if m else "?"
+        k = re.search(r'D_skeleton_diffs =\s*(.*?)\n\s+: ', out, re.S)
+        diffs = " ".join(k.group(1).split()) if k else None
+        if diffs not in (None, "[]"):
+            ctx.proof_broken = ("announcer_skeleton_matches fails: the loops of %s in %s/internal/layer2/announcer.go (which loops there are and whether they are left by "
+                                "return / break / continue) are no longer the ones Model/Announcer*.v was transcribed from (Model/AnnouncerSkel.v)" % (diffs, ctx.repo))
+        else:
+            ctx.proof_broken = ("announcer_methods_are_critical_sections fails on the lock facts generated from %s/internal/layer2/announcer.go: "
+                                "not a single critical section of Announce.RWMutex: %s" % (ctx.repo, bad if m else out[-600:]))
+    elif out.count("Closed under the global context") != 2:
         raise vlib.Broken("AnnSections.v: not closed: " + out[-800:])
     else:
-        ctx.discharged += 1
-        ctx.theorems.append("announcer_methods_are_critical_sections")
+        ctx.discharged += 2
+        ctx.theorems += ["announcer_methods_are_critical_sections", "announcer_skeleton_matches"]
 
 
 def run(ctx):
@@ -112,6 +120,40 @@ def run(ctx):
 
     spam_queue()
 
+    # the REAL spam loop (1.1 s ticker): repeats on the responders the latest advertisement covers, silent after the last withdraw
+    recs, okrun, log = ctx.go_harness(PKG, FILES, "TestVerifSpamLoop$", seed=ctx.seed, tag="sl", timeout=300)
+    for r in recs:
+        if r.get("t") == "fail":
+            ctx.oracle_fail(r.get("sig", "?"), r.get("what", ""), r.get("replay"))
+        elif r.get("t") == "stat":
+            st[r["k"]] = st.get(r["k"], 0) + r["v"]
+    if not okrun and not any(r.get("t") == "fail" for r in recs) and not any("does not build" in c for c in ctx.corr_broken):
+        ctx.corr_broken.append("harness TestVerifSpamLoop failed: " + log[-1500:])
+
+    # the REAL interface rescan on a veth pair (needs CAP_NET_ADMIN; counted as skipped otherwise)
+    xcases = []
+
+    def rescan(seed, tag):
+        recs, okrun, log = ctx.go_harness(PKG, FILES, "TestVerifRescan$", seed=seed, tag=tag, timeout=300)
+        for r in recs:
+            if r.get("t") == "fail":
+                ctx.oracle_fail(r.get("sig", "?"), r.get("what", ""), r.get("replay"))
+            elif r.get("t") == "stat":
+                st[r["k"]] = st.get(r["k"], 0) + r["v"]
+            elif r.get("t") == "case":
+                xcases.append(r)
+        if not okrun and not any(r.get("t") == "fail" for r in recs) and not any("does not build" in c for c in ctx.corr_broken):
+            ctx.corr_broken.append("harness TestVerifRescan failed: " + log[-1500:])
+
+    for k in range(2 if not thorough else 12):
+        rescan(ctx.seed + k, "x%d" % k)
+    if ok and xcases:
+        terms = [re.sub(r"^\(mk_xcase \d+%N", "(mk_xcase %d%%N" % i, c["coq"]) for i, c in enumerate(xcases)]
+        xm = ctx.coq_cases("Run_Announcer", "xcase", terms, shard=4, fn="xmismatches")
+        for m in xm[:5]:
+            ctx.corr_broken.append("rescan history %d: the real updateInterfaces / kernel membership and Model/AnnouncerExt.rescan disagree: %s" %
+                                   (m, json.dumps(xcases[m]["in"])[:900]))
+
     def search():
         for k in range(4):
             sequential(400, ctx.seed * 1000 + 7 + k, "s%d" % k)
@@ -122,7 +164,7 @@ def run(ctx):
     distinct = len({json.dumps(c["in"], sort_keys=True) for c in hist if
                     any(o["kind"] == "set" for o in c["in"]["ops"]) and any(o["kind"] == "del" for o in c["in"]["ops"])})
     ndp = st.get("ndp_responders", 0) > 0
-    ctx.cov["correspondence"] = {"histories": len(hist), "history_mismatches": len(mism),
+    ctx.cov["correspondence"] = {"histories": len(hist), "history_mismatches": len(mism), "rescan_histories": len(xcases),
                                  "concurrent_runs": len(conc), "concurrent_mismatches": len(tm),
                                  "generator_counters": st, "ndp_sockets_available": ndp}
     ctx.trusted += [
